@@ -324,7 +324,7 @@ def cells(tier):
             if sum(1 for op in s if op == "emitC") > 2:
                 continue
             if n == maxlen and n >= 3 and not (
-                    any(op in ("teardown", "remA", "remT", "addA-again") for op in s)
+                    any(op in ("teardown", "remA", "remT", "addA-again", "flush") for op in s)
                     and any(op.startswith("add") for op in s) and any(op.startswith("emit") for op in s)):
                 continue
             seqs.append(s)
